@@ -461,12 +461,16 @@ def run_standard(P, tier, seed):
                     # a disagreement is not by itself a violation of the property:
                     # the harness has already evaluated the property predicate on
                     # every case; those failures are reported above with inputs.
-                    R.violation("correspondence", f"model and implementation disagree on "
+                    found = bool(P.get("found_in_show") and P["found_in_show"](shows))
+                    R.violation(P.get("correspondence_key", "correspondence") if found else "correspondence",
+                                ("a schedule of the model in which the property fails was found (see model_outputs: "
+                                 "(first job, second job, schedule)); " if found else "") +
+                                f"model and implementation disagree on "
                                 f"{len(failing)} of {len(coq_cases)} cases, e.g. "
                                 + json.dumps({k: fc[0][k] for k in fc[0] if k not in ('coq', 'show', 'type')})[:400],
                                 {"correspondence": P["module"] + " vs implementation",
                                  "failing_cases": [{k: c[k] for k in c if k != "type"} for c in fc],
                                  "model_outputs": shows},
-                                found_input=any(v.get("found_input", True) for v in viols) and False)
+                                found_input=found)
     R.assumptions = P.get("assumptions", [])
     return R.finish(level=P.get("level", "proof"))
